@@ -649,7 +649,7 @@ def dispatch(func, name, args, kwargs):
             r = GT.gmode(func, args, kwargs, SymTensor, from_arr, to_real_concrete)
             if r is not None:
                 return r
-        elif name not in SCALAR_DOMAIN_OPS:
+        elif AUTO_TABLE and name not in SCALAR_DOMAIN_OPS:
             # non-linear op on values that depend on a few input bits only: switch to the finite-table domain
             r = None
             if name in GT.POINTWISE:
@@ -718,6 +718,7 @@ STRUCTURAL = {"aten.clone.default", "aten.cat.default", "aten.stack.default", "a
 
 
 AUTO_TABLE_VARS = 12
+AUTO_TABLE = False   # set by checks whose inputs are short bit sequences through non-linear float code (modems)
 # ops that keep GF(2)-affine / integer-linear normal forms: stay in the scalar domain
 SCALAR_DOMAIN_OPS = {"aten.add.Tensor", "aten.add.Scalar", "aten.sub.Tensor", "aten.sub.Scalar", "aten.rsub.Scalar", "aten.rsub.Tensor",
                      "aten.mul.Tensor", "aten.mul.Scalar", "aten.neg.default", "aten.mm.default", "aten.bmm.default", "aten.mv.default", "aten.dot.default",
